@@ -226,3 +226,29 @@ Section PipeFailFacts.
     exists (note_of p c), lg. split; [reflexivity|]. destruct c; exact El.
   Qed.
 End PipeFailFacts.
+
+(* ---------- a concrete instance (non-vacuity of the hypotheses of run_error_surfaces) ----------
+   o0 = f0(x) ; o1 = f1(p0) with the parameter p0 renamed to o0 ; the invocation f1(p0=f0(x=v)) raises *)
+Definition ex_exn : exn := {| cls := s "CustomError"; eargs := [s "p"; s "q"] |}.
+Definition ex_p : pipeline :=
+  [mkf (s "f0") [s "o0"] [(s "x", s "x")] [] [] false;
+   mkf (s "f1") [s "o1"] [(s "o0", s "p0")] [] [] false].
+Definition ex_body := fail_body (s "f1(p0=f0(x=v))") ex_exn.
+Definition ex_c0 : call := (s "f0", [(s "x", s "v")]).
+Definition ex_c1 : call := (s "f1", [(s "p0", s "f0(x=v)")]).
+
+Lemma example_run_surfaces :
+  wf_pipeline ex_p
+  /\ snd (Pipe.run (enc ex_body) Sym.pick ex_p (s "o1") [(s "x", s "v")] false) = [ex_c0] ++ ex_c1 :: []
+  /\ all_return ex_body [ex_c0]
+  /\ ex_body (fst ex_c1) (snd ex_c1) = Raised ex_exn
+  /\ run_f ex_body Sym.pick ex_p (s "o1") [(s "x", s "v")] false
+     = (FRaised ex_exn (s "f1", [(s "o0", s "f0(x=v)")]), [ex_c0; ex_c1])
+  /\ exists sn, run_snapshot ex_body Sym.pick ex_p (s "o1") [(s "x", s "v")] false = Some sn
+                /\ sn_fname sn = s "f1" /\ sn_kwargs sn = [(s "p0", s "f0(x=v)")] /\ sn_exn sn = ex_exn.
+Proof.
+  split; [vm_compute; reflexivity|]. split; [vm_compute; reflexivity|]. split.
+  - constructor; [|constructor]. eexists. vm_compute. reflexivity.
+  - split; [vm_compute; reflexivity|]. split; [vm_compute; reflexivity|].
+    eexists. split; [vm_compute; reflexivity|]. repeat split.
+Qed.
